@@ -671,7 +671,10 @@ def resolve_type_params(
             orig_base = orig_bases.get(get_type_origin(base))
             base_type_params = get_args(orig_base)
             base_type_args = tuple(
-                [resolved_type_params.get(a, a) for a in base_type_params]
+                [
+                    substitute_type_params(a, resolved_type_params)
+                    for a in base_type_params
+                ]
             )
             result.update(resolve_type_params(base, base_type_args))
 
